@@ -17,6 +17,7 @@ encryption) are covered by the fault enumeration of the harness only.
 -/
 import PdfVerif.Lemmas.Lenient
 import PdfVerif.Lemmas.LenientCodec
+import PdfVerif.Lemmas.LenientWork
 
 namespace PdfVerif.Props.C13
 open PdfVerif PdfVerif.Lenient
@@ -194,6 +195,30 @@ theorem C13_family_xref_chain (strict : Bool) (g : Graph) (t : XrefTable) (start
   cases hr : readXrefFuel strict g t (t.length + 1) start [] with
   | error e => simpa [Allowed, bind, Except.bind] using hgood.1 e hr
   | ok r => simp [Allowed, bind, Except.bind, pure, Except.pure]
+
+/-- Total work of the chain (round 6): every section is loaded at most once, so the number of sections
+`read_xref_from` loads — each one a parse of a table or of an xref stream — is at most the number of sections of
+the file, however the `Prev` / `XRefStm` entries are wired.  (The harness compares the list of loaded sections of
+the implementation with the model's on every generated file.) -/
+theorem C13_work_xref_chain (strict : Bool) (g : Graph) (t : XrefTable) (start : Int) (l : List Int)
+    (h : readXref strict g t start = .ok l) : l.length ≤ t.length := by
+  unfold readXref at h
+  cases hr : readXrefFuel strict g t (t.length + 1) start [] with
+  | error e => simp [hr, bind, Except.bind] at h
+  | ok r =>
+    obtain ⟨l', v'⟩ := r
+    simp only [hr, bind, Except.bind, pure, Except.pure, Except.ok.injEq] at h
+    subst h
+    have hc := readXrefFuel_count strict g t _ _ _ _ _ hr
+    have hinv := ((readXrefFuel_good C13_guards_present.1 C13_guards_present.2.2.2 strict g t (t.length + 1)
+      start [] ⟨List.nodup_nil, by intro p hp; cases hp⟩ (by simp)).2 _ _ hr).1
+    have := nodup_subset_length v' (t.map Prod.fst) hinv.1 (fun x hx => lookupInt_isSome_mem t x (hinv.2 x hx))
+    simp only [List.length_map, List.length_nil] at this hc
+    omega
+
+/-- Non-vacuity: two sections that name each other through both entries are loaded once each. -/
+example : (readXref false [] [(100, ⟨some (.int 200), some (.int 200)⟩), (200, ⟨some (.int 100), some (.int 100)⟩)] 100).map
+    List.length = .ok 2 := by rfl
 
 /-- Non-vacuity: a section whose Prev points at itself, and a 2-cycle, load and stop. -/
 example : readXref false [] [(100, ⟨none, some (.int 100)⟩)] 100 = .ok [100] := by rfl
